@@ -30,7 +30,16 @@ runr(Chars, Limit) :-
 rund(Chars, Limit) :-
     run_(Chars, Limit, true).
 
-run_(Chars, Limit, Det) :-
+% the goal text arrives as a double-quoted literal, so its shape follows the
+% double_quotes flag of the machine under test (C44 changes that flag)
+goal_chars(Text, Chars) :-
+    (   atom(Text), Text \== [] -> atom_chars(Text, Chars)
+    ;   Text = [C|_], integer(C) -> atom_codes(A, Text), atom_chars(A, Chars)
+    ;   Chars = Text
+    ).
+
+run_(Chars0, Limit, Det) :-
+    goal_chars(Chars0, Chars),
     catch(read_term_from_chars(Chars, Goal, [variable_names(VNs)]), PE, true),
     (   nonvar(PE) ->
         write('P '), dump(PE), nl
